@@ -16,6 +16,7 @@ def images_legacy(mods, seed, version):
     if version == "1.0":
         doc["header"].pop("type", None)
     exp = {}
+    uniq = [0]
     for v, arches in list(doc["payload"]["images"].items()):
         bins = sorted(arches)
         if r.random() < 0.7 and bins:
@@ -26,6 +27,11 @@ def images_legacy(mods, seed, version):
             arches["src"] = copy.deepcopy(moved)
             for x in arches["src"]:
                 x["arch"] = "src"
+                # arch is an identity attribute: two images of different variants must not become identical by this edit (a document
+                # with an identity clash is legitimately refused from 1.1 on -- C09), so the moved images get unique disc numbers
+                uniq[0] += 1
+                x["disc_number"] = 100 + uniq[0]
+                x["disc_count"] = max(x.get("disc_count") or 0, x["disc_number"])
             exp[v] = [x["path"] for x in arches["src"]]
             for a2 in list(arches):
                 if a2 != "src" and not arches[a2]:
